@@ -3,6 +3,7 @@
 package main
 
 import (
+	"strconv"
 	"bytes"
 	"fmt"
 	"io"
@@ -62,22 +63,32 @@ func runUnbounded(kind string) string {
 			verdict = "differs"
 		}
 		return fmt.Sprintf("exit 0 %.1f %s", time.Since(t0).Seconds(), verdict)
-	case "pipe-text", "pipe-zero", "pipe-b64":
+	case "pipe-text", "pipe-zero", "pipe-b64", "pipe-armor-header":
 		cmd = exec.Command(binPath("decipher"))
 		pr, pw := io.Pipe()
 		cmd.Stdin = pr
 		chunk := make([]byte, 1<<20)
+		var prefix []byte
 		switch kind {
 		case "pipe-text":
 			for i := range chunk {
 				chunk[i] = "hello world\n"[i%12]
 			}
+		case "pipe-armor-header":
+			// an armor header line that never ends
+			for i := range chunk {
+				chunk[i] = 'A'
+			}
+			prefix = []byte("-----BEGIN PGP PUBLIC KEY BLOCK-----\nComment: ")
 		case "pipe-b64":
 			for i := range chunk {
 				chunk[i] = "QUJD"[i%4]
 			}
 		}
 		go func() {
+			if _, err := pw.Write(prefix); err != nil {
+				return
+			}
 			for {
 				if _, err := pw.Write(chunk); err != nil {
 					return
@@ -106,14 +117,45 @@ func runUnbounded(kind string) string {
 	}
 }
 
+// clioutput nested <depth>: the real binary on DER nested <depth> deep, output discarded:
+// "<exit> <input bytes> <stdout bytes> <seconds>" or "hang"
+func runCliOutput(depth int) string {
+	dir, err := os.MkdirTemp("", "vhc08o")
+	must(err)
+	defer os.RemoveAll(dir)
+	data := nestedDER(depth)
+	must(os.WriteFile(filepath.Join(dir, "n.der"), data, 0o644))
+	cmd := exec.Command(binPath("decipher"), "n.der")
+	cmd.Dir = dir
+	out, err := cmd.StdoutPipe()
+	must(err)
+	t0 := time.Now()
+	must(cmd.Start())
+	done := make(chan int64, 1)
+	go func() { n, _ := io.Copy(io.Discard, out); done <- n }()
+	select {
+	case n := <-done:
+		_ = cmd.Wait()
+		return fmt.Sprintf("%d %d %d %.1f", cmd.ProcessState.ExitCode(), len(data), n, time.Since(t0).Seconds())
+	case <-time.After(300 * time.Second):
+		_ = cmd.Process.Kill()
+		_ = cmd.Wait()
+		return "hang"
+	}
+}
+
 func init() {
+	ops["clioutput"] = func(a []string) string {
+		d, _ := strconv.Atoi(a[1])
+		return runCliOutput(d)
+	}
 	ops["unbounded"] = func(a []string) string { return runUnbounded(a[0]) }
 }
 
 func genUnbounded(tier string) {
-	kinds := []string{"pipe-text", "sparse", "sparse-tail"}
+	kinds := []string{"pipe-text", "pipe-armor-header", "sparse", "sparse-tail"}
 	if tier == "thorough" {
-		kinds = []string{"pipe-text", "pipe-zero", "pipe-b64", "devzero", "sparse", "sparse-tail"}
+		kinds = []string{"pipe-text", "pipe-zero", "pipe-b64", "pipe-armor-header", "devzero", "sparse", "sparse-tail"}
 	}
 	for _, k := range kinds {
 		emit("unbounded", k)
